@@ -205,7 +205,9 @@ def updown_oracle(o, allow_abort=False):
     dests = [k for k, (i, l) in enumerate(ev) if l == "destroyed"]
     aborts = [(i, l) for i, l in ev if l.startswith("abort ") or l.startswith("uaf ")]
     if aborts and not allow_abort:
-        fails.append(("abort", "step %d `%s`: %s" % (aborts[0][0], o.ops[aborts[0][0]], aborts[0][1])))
+        # `uaf ..`: the library called into a destroyed object / handed an empty pointer to the user's callback
+        kind = "uaf" if aborts[0][1].startswith("uaf ") else "abort"
+        fails.append((kind, "step %d `%s`: %s" % (aborts[0][0], o.ops[aborts[0][0]], aborts[0][1])))
     if len(ups) > 1:
         fails.append(("double-up", "connection callback ran %d times with connected()==true" % len(ups)))
     if len(downs) > 1:
@@ -282,9 +284,15 @@ def callback_oracle(o):
         fails.append(("wc-without-send", "%d write-complete callbacks for %d accepted send()s" % (wcs, nsend)))
     # chronological pass: installed identities / marks so far
     wc_ids, hwm_ids, marks = set([1] if hasWC else []), set([1] if hasHWM else []), set([mark] if hasHWM else [])
+    gone = None
     for i in range(len(o.blocks)):
         isiter = i < o.n and o.ops[i] == "iter"
         for l in o.blocks[i]:
+            if l == "destroyed" and gone is None:
+                gone = i
+            if gone is not None and (l.startswith("cb WC") or l.startswith("cb HWM")) and not fails:
+                fails.append(("callback-after-destroy", "step %d: `%s` although the connection object was destroyed at step %d: a notification "
+                              "still queued when the connection goes away must do nothing" % (i, l, gone)))
             if l.startswith("# act "):
                 w = l.split()
                 if w[4] == "setwc" and int(w[5]):
